@@ -138,6 +138,9 @@ def run(vc):
         vc.explore(f"_calc_rx[inverse_y={inv}]", h_rx, max_paths=10)
 
 
+    from contracts import C18_extgrid
+    C18_extgrid.run(vc)
+
     if not hasattr(vc, "native_standins"):
         vc.native_standins = []
     vc.native_standins.append(dict(
@@ -152,6 +155,10 @@ def classify(ob, model):
 
 
 def replay(ob, model, finding=None):
+    if ob.meta.get("part", "").startswith("ext_grid-sc"):
+        return {"script": f"# replay of {ob.id}\nfrom replaylib.shortcircuit import main_feeders\nmain_feeders()\n",
+                "description": "calc_sc with two network feeders on one node (same bus / fused buses), cases max and min, inverse_y True / False: "
+                               "ikss against hand-computed parallel IEC feeder impedances"}
     return {"script": f"# replay of {ob.id}\nfrom replaylib.shortcircuit import main\nmain()\n",
             "description": "calc_sc on a meshed network: kappa in [1.02, 2], ip = kappa sqrt(2) ikss, results independent of inverse_y (3ph / 2ph, "
                            "min / max)"}
